@@ -203,11 +203,16 @@ fn parse_eq_delegate_by(
     }
 
     // `Self` is a keyword: plain `Ident` parsing rejects it
-    let ident = input.call(<syn::Ident as syn::ext::IdentExt>::parse_any)?;
+    if input.peek(syn::token::SelfType) {
+        let _: syn::token::SelfType = input.parse()?;
+
+        return Ok(SpanOpt(Delegate::BySelf, span));
+    }
+
+    let ident: syn::Ident = input.parse()?;
 
     Ok(SpanOpt(
         match ident.to_string().as_str() {
-            "Self" => Delegate::BySelf,
             "Borrow" => Delegate::ByRef(RefDelegate::Borrow),
             _ => Delegate::ByTrait(ident),
         },
